@@ -36,6 +36,8 @@ class SigmaRule(SigmaRuleBase, ProcessingItemTrackingMixin):
         SigmaRule object. Else the first recognized error is raised as exception.
         """
         kwargs, errors = super().from_dict_common_params(rule, collect_errors, source)
+        if not isinstance(rule, dict):  # error was recorded above
+            rule = dict()
 
         # parse log source
         try:
